@@ -12,6 +12,7 @@
 import GV.Basic.Hex
 import GV.Model.JsConv
 import GV.Model.CbGuard
+import GV.Model.CbHist
 import GV.Spec.JsTable
 
 namespace GV.Driver.C11
@@ -356,6 +357,58 @@ def runGuard (cap : Nat) (evs : List Ev) : String :=
     | e :: es => let r := step s e; (showOut r.1 ++ " " ++ showSt r.2) :: go r.2 es
   "|".intercalate (go (init cap) evs)
 
+/-! ### scheduler histories -/
+
+def parseCase (c : String) : Option GV.CbGuard.Case :=
+  if c == "r" then some .recv else if c == "d" then some .dflt
+  else if c.startsWith "s" then (dropPrefix c 1).toNat?.map .send else none
+
+open GV.CbHist in
+def parseGOp (o : String) : Option GOp :=
+  if o == "r" then some .recv else if o == "p" then some .panic else if o == "x" then some .exit
+  else if o.startsWith "s" then (dropPrefix o 1).toNat?.map .send
+  else if o.startsWith "l" then
+    match (dropPrefix o 1).splitOn ":" with
+    | [pick, cases] =>
+      match pick.toNat?, (cases.splitOn "+").mapM parseCase with
+      | some p, some cs => some (.select p cs)
+      | _, _ => none
+    | _ => none
+  else none
+
+open GV.CbHist in
+def parseHEv (s : String) : Option HEv :=
+  match s.splitOn "_" with
+  | ["go", ops] => if ops == "-" then some (.go []) else ((ops.splitOn ".").mapM parseGOp).map .go
+  | ["cbsend", v] => v.toNat?.map .cbSend
+  | ["cbrecv"] => some .cbRecv
+  | ["cbsel", pick, cases] =>
+    match pick.toNat?, (cases.splitOn ".").mapM parseCase with
+    | some p, some cs => some (.cbSelect p cs)
+    | _, _ => none
+  | ["tick"] => some .tick
+  | _ => none
+
+open GV.CbHist in
+def showHOut : HOut → String
+  | .op o => showOut o
+  | .threw => "threw"
+  | .ok => "ok"
+  | .idle => "idle"
+
+open GV.CbHist in
+def showHSt (h : HSt) : String :=
+  let j (l : List String) := if l.isEmpty then "-" else ",".intercalate l
+  let g (x : GV.CbGuard.Gid) := match x with | none => "cb" | some n => s!"g{n}"
+  s!"cur={g h.base.cur} buf={j (h.base.chan.buffer.map toString)} sq={h.base.chan.sendQ.length} rq={h.base.chan.recvQ.length} sched={j (h.base.scheduled.map g)} timers={h.timers} awake={h.base.awake} total={h.total}"
+
+open GV.CbHist in
+def runHist (cap : Nat) (evs : List HEv) : String :=
+  let rec go (h : HSt) : List HEv → List String
+    | [] => []
+    | e :: es => let r := step h e; (showHOut r.1 ++ " " ++ showHSt r.2) :: go r.2 es
+  "|".intercalate (go (init cap) evs)
+
 /-- topic `jsconv` -/
 def handle : List String → String
   | ["ext", t, v] =>
@@ -402,6 +455,10 @@ def handle : List String → String
     match parseUnits h with
     | some u => units16 (externalizeString (internalizeString u))
     | none => "bad-op"
+  | ["hist", cap, evs] =>
+    match cap.toNat?, (evs.splitOn "|").mapM parseHEv with
+    | some c, some es => runHist c es
+    | _, _ => "bad-op"
   | ["cls", t, v] =>               -- class of the externalized value (model)
     match (parse t).bind toTy, (parse v).bind toGo with
     | some τ, some g => showR (fun j => showClass (GV.Spec.JsTable.classOf j)) (externalize τ g)
